@@ -88,7 +88,13 @@ def run(chk, tier):
     import orphan
     nor = orphan.run(chk, P, ["topology.c"])
     chk.floor("R-ORPHAN", "release sites x child lists", nor, 12)
-    chk.decided += ['Misc/memory/I-O/normal children of a removed object are re-attached or released on every path before the object is freed',
+    chk.rule("R-SUPERSETGUARD", "scenario evaluation of restrict_object_by_cpuset/by_nodeset: with every set predicate answering \"meets the dropped set\" for obj->complete_X and \"does not\" for obj->X, the subtraction from "
+             "obj->complete_X and the recursion into the children are still reached (the guard is decided by the larger set, however it is written)")
+    import supersetguard
+    nsg = supersetguard.run(chk, P)
+    chk.floor("R-SUPERSETGUARD", "restrict walkers judged", nsg, 2)
+    chk.decided += ['objects whose complete sets alone meet the dropped set (offline or disallowed PUs / nodes) are still restricted, with their subtree',
+                    'Misc/memory/I-O/normal children of a removed object are re-attached or released on every path before the object is freed',
                     "inconsistent flags -> EINVAL (all words); every EINVAL/EPERM exit precedes any write to the topology",
                     "post-restrict fix-ups present on every success path, each cache invalidation under its own flag",
                     "NUMA nodes/PUs removed only with REMOVE_CPULESS/REMOVE_MEMLESS; I/O and Misc dropped only without ADAPT; cpusets and nodesets never mixed"]
